@@ -174,7 +174,8 @@ def run(replay=None):
         f = dict(x.split("=", 1) for x in head.split()[1:])
         n = int(f["n"])
         P = [tuple(int(c) for c in t.split(",")) for t in pts.split()]
-        if f["closed"] != "1":
+        # (an empty mesh - a solid thinner than the grid - is vacuously closed; the harness flag is 0 for it)
+        if f["closed"] != "1" and int(f["tris"]) > 0:
             ck.violation("unbalanced:simplex", "the simplex mesher on a uniform grid without collapsing is not closed / edge-manifold",
                          {"program": p.text(), "detail": head})
         # the model covers lattice edges whose four cells lie in the box: comparable when the outermost cell
